@@ -133,7 +133,23 @@ Definition h_split_guard (a : list sx) : sx :=
   | _ => err "arity"
   end.
 
+(* (v2_branch pinned max_rep enc) with enc 0 = PLAIN, 2/8 = dictionary, 3 = RLE, 5 = DELTA_BINARY_PACKED
+   (parquet.thrift Encoding ids) -> assemble | flat | unsupported *)
+Definition h_v2_branch (a : list sx) : sx :=
+  match a with
+  | [pinned; mr; enc] =>
+    match as_bool pinned, as_N mr, as_N enc with
+    | Some pinned, Some mr, Some enc =>
+      let e := match enc with 0%N => EPlain | 2%N => EDict | 8%N => EDict | 3%N => ERle | 5%N => EDelta | _ => EOther end in
+      match v2_branch pinned mr e with
+      | BAssemble => S_ "assemble" | BFlat => S_ "flat" | BUnsupported => S_ "unsupported"
+      end
+    | _, _, _ => err "args"
+    end
+  | _ => err "arity"
+  end.
+
 Definition table : list (string * handler) :=
   [("shred", h_shred); ("assemble_spec", h_assemble_spec); ("assemble_page", h_assemble_page);
    ("run_v1", h_run_v1); ("run_v2", h_run_v2); ("sch", h_sch); ("shape_levels", h_shape_levels);
-   ("zip_maps", h_zip_maps); ("split_guard", h_split_guard)].
+   ("zip_maps", h_zip_maps); ("split_guard", h_split_guard); ("v2_branch", h_v2_branch)].
